@@ -19,7 +19,7 @@ RULE = ("histories of up to 14 operations over up to 4 sessions (HTTP/1.1 and HT
         "failed CONNECT (closed port), end an HTTP/2 tunnel, close a session with open tunnels, snapshots in between and at the end (all closed -> gauges 0), "
         "Metrics::collect text, GET /metrics, /health-check, /other on the metrics listener with HTTP/1.1 enabled and disabled; through the real endpoint: one session per transport (any subset) with a tunnel uploading u and downloading d, "
         "a multiplexer stream with 1..5 flows on one transport (its own connection on HTTP/1.1), all gauges and the six traffic counters read from the metrics listener live and after the clients left; "
-        "a client per transport that is gone (TCP reset, connection closed without a word, HTTP/3 stream reset) while the destination of its tunnel stays: gauges read up to 8 s later; non-trivial = every case; distinct = distinct history")
+        "a client per transport that is gone (TCP reset, connection closed without a word, HTTP/3 stream reset, also with the tunnel back-pressured by a destination that stopped reading) while the destination of its tunnel stays: gauges read up to 8 s later; non-trivial = every case; distinct = distinct history")
 
 
 # real sockets / real time: a verdict must persist when the case is re-run on its own (2 of 3)
@@ -54,8 +54,9 @@ def gen_cases(rng, ctx):
         l = line("c16_front", [f])
         cases.append(Case(l, l, kind="endpoint:metrics-listener", nontrivial=True, meta={"front": f}))
     # a client that is gone while the destination of its tunnel stays (reads, never writes, does not close when its peer does):
-    # [proto, 0 = TCP reset | 1 = connection closed without a word | 2 = HTTP/3 RESET_STREAM, the connection stays]
-    for proto, how in [(1, 0), (1, 1), (2, 0), (2, 1), (3, 1), (3, 2)]:
+    # [proto, 0 = TCP reset | 1 = connection closed without a word | 2 = HTTP/3 RESET_STREAM, the connection stays | 3 = the same while the
+    #  destination does not read and the client has uploaded all that the tunnel would take]
+    for proto, how in [(1, 0), (1, 1), (2, 0), (2, 1), (3, 1), (3, 2), (3, 3)]:
         l = line("c16_gone", [[proto, how]])
         cases.append(Case(l, None, kind="endpoint:client-gone-h%d-%s" % (proto, GONE[how][0]), nontrivial=True, meta={"gone": True, "proto": proto, "how": how}))
     for i in range(60 if thorough else 16):
@@ -110,6 +111,8 @@ GONE = {
     0: ("reset", "its TCP connection is reset"),
     1: ("closed", "its connection is closed without a word (HTTP/1.1, HTTP/2: TCP FIN without a TLS closure alert; HTTP/3: CONNECTION_CLOSE)"),
     2: ("stream-reset", "its request stream is reset (RESET_STREAM), the connection stays"),
+    3: ("stream-reset-under-back-pressure", "the destination stops reading for 3 s, the client uploads until nothing more is taken from it, then its request stream is reset (RESET_STREAM), "
+        "the connection stays, and the destination reads on"),
 }
 
 
@@ -146,18 +149,24 @@ def judge(case, impl, model, spec, ctx):
             return []
         m = case.meta
         t = [untok(x) for x in impl.split()]
-        (status, dest_saw, waited), snap = t[0], t[1]
-        what = ("real endpoint, one HTTP/%s client with a tunnel that carried 10 bytes to a destination which stays (reads, never writes, does not close when its peer does); the client goes: %s"
-                % ({1: "1.1", 2: "2", 3: "3"}[m["proto"]], GONE[m["how"]][1]))
+        (status, dest_saw, waited, dest_got), snap = t[0], t[1]
+        what = ("real endpoint, one HTTP/%s client with a tunnel that carried 10 bytes%s to a destination which stays (reads, never writes, does not close when its peer does); the client goes: %s"
+                % ({1: "1.1", 2: "2", 3: "3"}[m["proto"]], " and then %d more" % (dest_got - 10) if m["how"] == 3 and dest_got > 10 else "", GONE[m["how"]][1]))
         if status != 200:
             return [("disagree", "%s: CONNECT answered %d" % (what, status))]
         # independent reference: the client is gone (how = 2: its session stays, its tunnel is gone), ten bytes were uploaded
-        ref = [0, 0, 1 if m["how"] == 2 else 0, 0, 0] + [10 if i == m["proto"] - 1 else 0 for i in range(3)] + [0, 0, 0]
+        ref = [0, 0, 1 if m["how"] in (2, 3) else 0, 0, 0] + [10 if i == m["proto"] - 1 else 0 for i in range(3)] + [0, 0, 0]
+        if m["how"] == 3:
+            # what was relayed is what the destination received before the end of its stream; if it saw no such end (an error, or nothing
+            # yet) some relayed bytes may not have reached it, and only the gauges are judged
+            ref[5 + m["proto"] - 1] = dest_got if dest_saw == 1 else snap[5 + m["proto"] - 1]
         names = ["client_sessions{HTTP1}", "client_sessions{HTTP2}", "client_sessions{HTTP3}", "outbound_tcp_sockets", "outbound_udp_sockets",
                  "inbound_traffic_bytes{HTTP1}", "inbound_traffic_bytes{HTTP2}", "inbound_traffic_bytes{HTTP3}",
                  "outbound_traffic_bytes{HTTP1}", "outbound_traffic_bytes{HTTP2}", "outbound_traffic_bytes{HTTP3}"]
         if snap != ref:
-            j = next(i for i in range(11) if snap[i] != ref[i])
+            wrong = [i for i in range(11) if snap[i] != ref[i]]
+            # the outbound connection first: a session that idled out during the wait is a consequence, not the finding
+            j = 3 if 3 in wrong else wrong[0]
             return [("violation", "%s: GET /metrics %d ms later: %s = %d, live objects / relayed bytes: %d (the destination saw %s)"
                      % (what, waited, names[j], snap[j], ref[j], {0: "nothing", 1: "an end of stream", 2: "an error"}[dest_saw]))]
         return []
